@@ -36,3 +36,29 @@ package channel
 //@   ensures  old(kv.SpecCounterVal[c.wrap]) + int64(delta) <= 1048575 ==> kv.SpecCounterVal[c.wrap] == old(kv.SpecCounterVal[c.wrap]) + int64(delta) && int64(next) == kv.SpecCounterVal[c.wrap]
 //@   ensures  kv.SpecCounterVal[c.wrap] >= old(kv.SpecCounterVal[c.wrap]) && kv.SpecCounterVal[c.wrap] <= 1048575
 //@   modifies kv.SpecCounterVal
+
+//@ # ---- key assignment on create. The name lookup is a gorp query (ignored: `existing` is arbitrary)
+//@ ignore func (s *Service) newRetrieve() Retrieve
+//@ ignore func (r Retrieve) Where() Retrieve
+//@ ignore func (r Retrieve) Entries() Retrieve
+//@ ignore func (r Retrieve) Exec() error
+//@ ignore func MatchNames() gorp.Filter
+
+//@ func (s *Service) retrieveExistingAndAssignKeys(ctx context.Context, tx gorp.Tx, channels *[]Channel, counter *counter, retrieveIfNameExists bool) (toCreate []Channel, err error)
+//@   requires channels != nil && counter != nil && counter.wrap != nil
+//@   requires kv.SpecCounterVal[counter.wrap] >= 0 && kv.SpecCounterVal[counter.wrap] <= 1048575 && len(*channels) <= 1048575
+//@   ensures  err == nil ==> len(*channels) == old(len(*channels))
+//@   # the j-th created channel gets key old_counter+j+1: strictly increasing, pairwise distinct, above every key handed out before
+//@   ensures  err == nil ==> (forall j int :: 0 <= j && j < len(toCreate) ==> int64(toCreate[j].LocalKey) == old(kv.SpecCounterVal[counter.wrap]) + int64(j) + 1)
+//@   ensures  err == nil ==> (forall j int :: 0 <= j && j < len(toCreate) ==> (toCreate[j].IsIndex ==> toCreate[j].LocalIndex == toCreate[j].LocalKey))
+//@   ensures  err == nil ==> (forall i int :: 0 <= i && i < len(*channels) ==> (*channels)[i].LocalKey != 0 && ((*channels)[i].IsIndex ==> (*channels)[i].LocalIndex == (*channels)[i].LocalKey))
+//@   # never reused (plain create): the persisted counter has advanced past every key handed out
+//@   ensures  err == nil && !retrieveIfNameExists ==> kv.SpecCounterVal[counter.wrap] == old(kv.SpecCounterVal[counter.wrap]) + int64(old(len(*channels))) && len(toCreate) <= old(len(*channels))
+//@   ensures  kv.SpecCounterVal[counter.wrap] >= old(kv.SpecCounterVal[counter.wrap])
+//@   modifies channels, kv.SpecCounterVal
+//@   loop 0 modifies channels
+//@   loop 0 invariant len(*channels) == old(len(*channels)) && len(names) == len(*channels) && 0 <= incCounterBy && int(incCounterBy) <= len(*channels)
+//@   loop 1 modifies channels
+//@   loop 1 invariant len(*channels) == old(len(*channels)) && len(toCreate) <= __ri(0)
+//@   loop 1 invariant forall j int :: 0 <= j && j < len(toCreate) ==> toCreate[j].LocalKey == originalCounterValue + LocalKey(j) + 1 && (toCreate[j].IsIndex ==> toCreate[j].LocalIndex == toCreate[j].LocalKey)
+//@   loop 1 invariant forall k int :: 0 <= k && k < __ri(0) ==> (*channels)[k].LocalKey != 0 && ((*channels)[k].IsIndex ==> (*channels)[k].LocalIndex == (*channels)[k].LocalKey)
